@@ -16,7 +16,7 @@ RULE = ('cases: add_/sub_/mul_/div_/pow_/gt_/ge_/lt_/le_ on 2 operands, each a f
         '14-day grid (random, nested, disjoint, blocks, empty), NaN and 0 anywhere; every index policy in {ij, oj} (also lj, rj), '
         'method in {None, ffill, bfill}, column policy in {ij, oj} (also lj, rj). Values are small integers chosen so that every '
         'result is an exact integer in floating point (dividends are multiples of 64, divisors 0 or +-1, 2, 4; exponents 0..3; '
-        'df_mean operands multiples of 12), so float and exact integer arithmetic agree; +-inf cells and scalars (carried as +-10^9) in 30% of the add/sub/mul/div/comparison/min/max cases, where the IEEE result needs no rounding; a non-integer result is observed as its '
+        'df_mean operands multiples of 12), so float and exact integer arithmetic agree; +-inf cells and scalars (carried as +-10^9) in 30% of the add/sub/mul/div/comparison/min/max and df_sum/df_mean/df_count/df_std cases, where the IEEE result needs no rounding (an infinite operand is data: counted, it decides sum and mean); 150 cases of a one-column frame x Series (either order, inside lists, with scalars) whose joint index has exactly 0, 1 or 2 rows, for min_/max_ and the operators; a non-integer result is observed as its '
         'float.hex() and can never match the model. Observed: kind, index, columns, every cell; compared in Coq with the model '
         'M_tsops on the alignment model M_align; the oracle recomputes the result from the statement (Python sets + Fractions). '
         'Varied in kind: b omitted, f(a, b) call form, scalar types int / float / np.float64 / np.int64, int-dtype operands, spellings, long / integer column names, 1 us .. 1 day ticks and 1900 / 2250 origins, 120-250-row series; df_std is checked by the oracle only (1e-9); timezone-aware indices in 25% of the cases. Operands are built once per case: the operator is called twice on the same objects (identical result required), add_/sub_/mul_/div_ cases then apply a SECOND operator (add_/sub_/mul_) to the very same objects (oracle-checked; 120 cases with zero-holding denominators already on the joint index), and a deep snapshot of every operand (cells, index, dtype, name) must be unchanged. non-trivial = at least two timeseries operands with different, overlapping indices, or a zero divisor; distinct by input')
@@ -311,6 +311,19 @@ def expect_cellwise(xs, C, f):
 
 def expect_minmax(case):
     xs, C = synced(case['xs'], case['how'], case['method'], case['columns'])
+    if C is None and any('F' in l for l in xs):
+        # a one-column frame: next to a Series it is squeezed to its column (the result is a Series), next to a scalar it stays a frame
+        acc = xs[0]
+        for x in xs[1:]:
+            if 'F' in acc and 'S' in x: acc = col_of(acc, acc['F']['cols'][0])
+            if 'S' in acc and 'F' in x: x = col_of(x, x['F']['cols'][0])
+            if 'F' in acc or 'F' in x:
+                f, other, left = (acc, x, True) if 'F' in acc else (x, acc, False)
+                assert 'N' in other
+                acc = {'F': dict(f['F'], rows=[[cell_op(case['op'], v, other['N']) if left else cell_op(case['op'], other['N'], v) for v in r] for r in f['F']['rows']])}
+            else:
+                acc = series_op(case['op'], acc, x)
+        return acc
     def f(cells):
         acc = cells[0]
         for c in cells[1:]:
@@ -321,8 +334,13 @@ def expect_minmax(case):
 def expect_agg(case):
     xs, C = synced(case['xs'], case['how'], case['method'], case['columns'])
     def f(cells):
-        vals = [c for c in cells if c is not None]      # NaN operands are skipped
+        vals = [c for c in cells if c is not None]      # NaN operands are skipped; +-inf operands are DATA (counted, IEEE sum)
         if case['agg'] == 'count': return len(vals)
+        if any(abs(v) == c03.INF for v in vals):
+            if case['agg'] == 'std':
+                return None                                  # fewer than two operands, or inf - inf inside the variance: NaN
+            r = sum(c03.fl(v) for v in vals)                 # inf + finite = inf, inf + -inf = nan; the mean divides by a positive count
+            return None if r != r else c03.INF if r > 0 else -c03.INF
         if case['agg'] == 'std':                         # biased std of the non-NaN operands, NaN when fewer than two
             if len(vals) < 2: return None
             mean = Fraction(sum(vals), len(vals))
@@ -558,6 +576,35 @@ def gen_cases(rng, tier):
         cases.append({'kind': 'op', 'op': op, 'a': a, 'b': b, 'how': rng.choice(['ij', 'oj']), 'method': rng.choice([None, 'ffill']), 'columns': 'ij'})
         xs = [a, {'S': [[t, gen_val(rng, 'twelve', 0.3)] for t, _ in b['S']]}]
         cases.append({'kind': 'agg', 'agg': rng.choice(['sum', 'count']), 'xs': [xs[0] if op != 'div' else xs[1], xs[1]], 'how': 'oj', 'method': None, 'columns': 'oj'})
+    for _ in range(150 if q else 2000):                   # one-column frames x Series whose joint index has exactly 0, 1 or 2 rows
+        k = rng.choice([0, 1, 1, 2])
+        common = sorted(rng.sample(range(GRID), k))
+        rest = [d for d in range(GRID) if d not in common]
+        extra = lambda: sorted(common + rng.sample(rest, rng.choice([0, 0, 1, 3])))
+        how = rng.choice(['ij', 'ij', 'lj', 'rj', 'oj'])
+        ia, ib = (common, common) if how == 'oj' else (extra(), extra())
+        if how == 'lj': ia = common
+        if how == 'rj': ib = common
+        if how == 'ij' and set(ia) & set(ib) != set(common): ib = common
+        op = rng.choice(['min', 'max', 'min', 'max', 'add', 'sub', 'mul', 'div', 'gt', 'le'])
+        ra, rb = ('num64', 'den') if op == 'div' else ('int', 'int')
+        f1 = gen_ts(rng, ia, 'F', ra, [rng.choice('abcd')])
+        s2 = gen_ts(rng, ib, 'S', rb)
+        swap = rng.random() < 0.5 and op != 'div'
+        if how in ('lj', 'rj') and swap:
+            how = {'lj': 'rj', 'rj': 'lj'}[how]
+        pair = [s2, f1] if swap else [f1, s2]
+        if op in ('min', 'max'):
+            xs = list(pair)
+            r = rng.random()
+            if r < 0.25: xs.append({'N': gen_val(rng, 'int', 0.1)})
+            elif r < 0.4: xs.append({'S': [[t, gen_val(rng, 'int')] for t in common]})
+            cases.append({'kind': 'minmax', 'op': op, 'xs': xs, 'how': how if len(xs) == 2 or how in ('ij', 'oj') else 'ij', 'method': rng.choice([None, None, 'ffill']), 'columns': rng.choice(['ij', 'oj'])})
+        else:
+            a, b = pair
+            if op in ('add', 'sub', 'mul') and rng.random() < 0.3:
+                a = {'many': [a, {'N': gen_val(rng, 'int', 0)}]}
+            cases.append({'kind': 'op', 'op': op, 'a': a, 'b': b, 'how': how, 'method': rng.choice([None, None, 'ffill']), 'columns': rng.choice(['ij', 'oj'])})
     for _ in range(30 if q else 300):                     # df_sum / df_mean / df_count of scalars only (docstring example df_sum(a = 5, b = nan))
         g = rng.choice(['sum', 'mean', 'count'])
         xs = [{'N': gen_val(rng, 'twelve' if g == 'mean' else 'int', 0.4)} for _ in range(rng.choice([1, 2, 3, 4]))]
@@ -570,7 +617,7 @@ def gen_cases(rng, tier):
 
 def add_inf(rng, case):
     """+-inf cells and scalars for the operations whose IEEE result is determined without rounding"""
-    ok = (case['kind'] == 'op' and case['op'] in ('add', 'sub', 'mul', 'div', 'gt', 'ge', 'lt', 'le')) or case['kind'] == 'minmax'
+    ok = (case['kind'] == 'op' and case['op'] in ('add', 'sub', 'mul', 'div', 'gt', 'ge', 'lt', 'le')) or case['kind'] in ('minmax', 'agg')
     if not ok or rng.random() > 0.3:
         return case
     c = json.loads(json.dumps(case))
